@@ -32,9 +32,19 @@ def scn(T, case):
 
 
 def cases_chain(tier):
-    for depth in (1, 2, 3):
+    for depth in (1, 2, 3, 4, 5, 8) + ((13, 40) if tier == "thorough" else ()):
         for nh in (0, 1, 2):
+            if depth > 3 and nh == 0:
+                continue
             yield "depth=%d/handlers=%d" % (depth, nh), {"depth": depth, "nh": nh}
+            if depth >= 2 and nh:
+                # history: the chain below the outermost plan has already emitted events on its own, then it is nested under
+                # the outermost plan (set_parent on the plan at the top of the sub-chain, as a running optimizer step does)
+                yield "depth=%d/handlers=%d/sub-chain-emitted-before-it-was-nested" % (depth, nh), {"depth": depth, "nh": nh, "late_root": True}
+    # the induction step, for a chain of ANY depth: a plan with an arbitrary parent delivers the event to its own handlers, then
+    # hands the same event to the parent exactly once (whose own delivery is this very contract), and calls no observer itself
+    for nh in (0, 1, 2):
+        yield "induction-step/arbitrary-parent/handlers=%d" % nh, {"depth": 1, "nh": nh, "abstract_parent": True}
 
 
 def scn_chain(T, case):
@@ -56,12 +66,38 @@ def scn_chain(T, case):
         octx.add_observer(e, stepflow.Recorder("obs-%s-2" % e.name, log))
     plans, want = [], []
     parent = None
-    for d in range(case["depth"]):
+    if case.get("abstract_parent"):
+        from roptvc.sym import ContractUnbound
+
+        class ArbitraryParent:
+            """Known by the contract of emit_event only; code that looks inside it is outside this induction argument (undecided,
+            not a violation: the enumerated chains above still decide)."""
+
+            def emit_event(self, event):
+                log.append(("parent.emit_event", event))
+
+            def __getattr__(self, name):
+                raise ContractUnbound("emit_event reads %r of the parent plan instead of handing the event to parent.emit_event: the induction step does not apply" % name)
+
+        parent = ArbitraryParent()
         p = plan_cls(octx, parent)
+        p._handlers = {"h%d" % k: stepflow.Recorder("plan0-handler%d" % k, log) for k in range(case["nh"])}
+        ev = Event(event_type=et, config=None, source=None)
+        p.emit_event(ev)
+        T.prove("C15.emit.induction_step.own_handlers_then_the_parent_once_and_no_observer_called_directly",
+                [n for n, _ in log] == ["plan0-handler%d" % k for k in range(case["nh"])] + ["parent.emit_event"] and all(e is ev for _, e in log))
+        return
+    for d in range(case["depth"]):
+        p = plan_cls(octx, None if (case.get("late_root") and d == 1) else parent)
         p._handlers = {"h%d" % k: stepflow.Recorder("plan%d-handler%d" % (d, k), log) for k in range(case["nh"])}
         plans.append(p)
         parent = p
     child = plans[-1]
+    if case.get("late_root"):
+        child.emit_event(Event(event_type=et, config=None, source=None))
+        T.prove("C15.emit.a_chain_not_yet_nested_does_not_reach_the_future_outer_plan", not any(n.startswith("plan0-") for n, _ in log))
+        del log[:]
+        plans[1].set_parent(plans[0])
     for d in range(case["depth"] - 1, -1, -1):
         want += ["plan%d-handler%d" % (d, k) for k in range(case["nh"])]
     want += ["obs-%s-1" % et.name, "obs-%s-2" % et.name]
@@ -88,6 +124,9 @@ def cases_nested(tier):
     for inner_aborted in (False, True):
         for ok_type in (True, False):
             yield "inner_aborted=%s/result_ok=%s" % (inner_aborted, ok_type), {"inner_aborted": inner_aborted, "ok_type": ok_type}
+    # the inner plan ends without a result (its function returns None: nothing was tracked), aborted or not
+    for inner_aborted in (False, True):
+        yield "inner_aborted=%s/no-result" % inner_aborted, {"inner_aborted": inner_aborted, "ok_type": True, "none": True}
     # the inner plan has run under another outer plan before (a nested plan object reused by a second optimizer step)
     for inner_aborted in (False, True):
         yield "inner_aborted=%s/result_ok=True/inner-plan-used-before-by-another-plan" % inner_aborted, {"inner_aborted": inner_aborted, "ok_type": True, "reused": True}
@@ -119,6 +158,8 @@ def scn_nested(T, case):
         inner.add_function(lambda plan, variables: FunctionResults(batch_id=None, metadata={}, evaluations=None, realizations=None, functions=None))
         pstep._run_nested_plan(np.zeros(1))
     res = FunctionResults(batch_id=None, metadata={}, evaluations=None, realizations=None, functions=None) if case["ok_type"] else "not-a-result"
+    if case.get("none"):
+        res = None  # 'no result' is a legitimate outcome of the inner function (FunctionResults | None): never a TypeError
 
     def func(plan, variables):
         # the inner plan emits an event while it runs: it must reach its own handlers, then those of the plan that runs it NOW
@@ -159,11 +200,93 @@ def scn_steps(T, case):
     stepcontract.scenario(T, case, "C15")
 
 
+# ------------------------------------------------------------------------------------ BasicOptimizer: every callback gets its own events
+def cases_callbacks(tier):
+    for order in ("abort-first", "results-first"):
+        for abort in (False, True):
+            yield "%s/abort=%s" % (order, abort), {"order": order, "abort": abort}
+
+
+def scn_callbacks(T, case):
+    """'Every event is delivered exactly once to ... the observers': the two callbacks of BasicOptimizer are observers of different
+    event types (abort check: START_EVALUATION, results: FINISHED_EVALUATION); each is registered for its own type and is the
+    function that runs when that type is observed, whatever the order in which they were set."""
+    from ropt.enums import EventType, OptimizerExitCode
+    from ropt.exceptions import OptimizationAborted
+    from ropt.plan import Event
+
+    MB = "ropt.plan._basic_optimizer"
+    registered, log = [], []
+
+    class FakePlan:
+        def __init__(self, ctx):
+            self._f = None
+
+        step_exists = handler_exists = lambda self, k: False
+
+        def has_function(self):
+            return self._f is not None
+
+        def add_step(self, name):
+            return "optimizer-step-id"
+
+        def add_handler(self, name, **kw):
+            return "tracker-id"
+
+        def add_function(self, f):
+            self._f = f
+
+        def run_function(self, *a):
+            return None, "EXIT"
+
+    if T.symbolic:
+        sh = T.shadow([MB], stubs={(MB, "Plan"): FakePlan})
+        cls = T.under_contract(sh, MB, "BasicOptimizer")
+        for q in ("run", "set_abort_callback", "set_results_callback"):
+            T.under_contract(sh, MB, "BasicOptimizer." + q)
+        restore = None
+    else:
+        import ropt.plan._basic_optimizer as real
+
+        restore = (real, real.Plan)
+        real.Plan = FakePlan
+        cls = real.BasicOptimizer
+    try:
+        bo = object.__new__(cls)
+        bo._config, bo._transforms, bo._constraint_tolerance, bo._kwargs, bo._observers = {}, None, 1e-10, {}, []
+        bo._optimizer_context = types.SimpleNamespace(add_observer=lambda et, fn: registered.append((et, fn)))
+        abort_cb = lambda: log.append("abort-check") or case["abort"]  # noqa: E731
+        results_cb = lambda results: log.append(("results", results))  # noqa: E731
+        if case["order"] == "abort-first":
+            bo.set_abort_callback(abort_cb).set_results_callback(results_cb)
+        else:
+            bo.set_results_callback(results_cb).set_abort_callback(abort_cb)
+        bo.run()
+    finally:
+        if restore:
+            restore[0].Plan = restore[1]
+    T.prove("C15.basic.one_observer_per_callback_for_its_own_event_type", sorted(et.name for et, _ in registered) == ["FINISHED_EVALUATION", "START_EVALUATION"])
+    payload = ("r0", "r1")
+    for et, fn in registered:
+        del log[:]
+        ev = Event(event_type=et, config=None, source="optimizer-step-id", data={"results": payload} if et == EventType.FINISHED_EVALUATION else {})
+        try:
+            fn(ev)
+            raised = None
+        except OptimizationAborted as exc:
+            raised = exc.exit_code
+        if et == EventType.START_EVALUATION:
+            T.prove("C15.basic.start_of_an_evaluation_runs_the_abort_check_and_nothing_else", log == ["abort-check"] and (raised == OptimizerExitCode.USER_ABORT) == case["abort"], repr(log))
+        else:
+            T.prove("C15.basic.finished_evaluation_reports_the_results_and_nothing_else", log == [("results", payload)] and raised is None, repr(log))
+
+
 SCENARIOS = [
     Scenario("step_event_streams", scn, stepflow.cases, {"quick": 10, "thorough": 100}),
     Scenario("emit_event_over_plan_chains", scn_chain, cases_chain, {"quick": 2, "thorough": 10}),
     Scenario("nested_plan_abort", scn_nested, cases_nested, {"quick": 1, "thorough": 1}),
     Scenario("plan_steps_hand_over", scn_steps, cases_steps, {"quick": 1, "thorough": 2}),
+    Scenario("basic_optimizer_callbacks", scn_callbacks, cases_callbacks, {"quick": 1, "thorough": 1}),
 ]
 
 MANIFEST = {
@@ -171,6 +294,6 @@ MANIFEST = {
     "text": "Exhaustive path exploration of the real step/plan/context code against a bounded non-deterministic environment: for every abort point and failure pattern the event stream, "
             "delivery order, exit code USER_ABORT, plan latch and refusal of further steps are checked against an executable reading of the documented semantics; emit_event over parent "
             "chains and nested-plan abort propagation separately. A contract check over all paths for that environment (runs bounded to 2 requests, nesting depth 3), not an unbounded proof.",
-    "note": "bounded environment; single-threaded; SciPy assumed to propagate callback exceptions; EnsembleEvaluator.calculate by raises-contract",
+    "note": "event delivery over plan chains of depth <= 8 (40 thorough) plus the induction step for any depth (arbitrary parent by the contract of emit_event); bounded environment; single-threaded; SciPy assumed to propagate callback exceptions; EnsembleEvaluator.calculate by raises-contract",
     "technique": "contract-based verification of event/exception flow: symbolic-execution engine enumerating all environment choices over the real source, obligations per path; bounded run-time checking as stand-in",
 }
